@@ -7,7 +7,7 @@ pub fn def() -> PropDef {
     PropDef {
         id: "C18",
         builds: BOTH,
-        rule: "every text over {SP,TAB,L,NL,CRLF,NBSP,L} up to length N; dedent compared line-wise with the reference (margin = longest common whitespace prefix of the lines containing a non-whitespace character); newline count preserved; idempotence (no line ending in a lone CR); dedent(indent(s,p)) == dedent(s) for 4 whitespace prefixes (CR-free s); non-trivial = >= 2 lines with content and a non-empty margin on at least one of them",
+        rule: "every text over {SP,TAB,L,NL,CRLF,NBSP,L,SHY (non-whitespace sharing NBSP's UTF-8 lead byte)} up to length N; dedent compared line-wise with the reference (margin = longest common whitespace prefix of the lines containing a non-whitespace character); newline count preserved; idempotence (no line ending in a lone CR); dedent(indent(s,p)) == dedent(s) for 4 whitespace prefixes (CR-free s); non-trivial = >= 2 lines with content and a non-empty margin on at least one of them",
         assumptions: BASE_ASSUMPTIONS,
         floor: |t| t.pick(10_000, 500_000),
         run,
@@ -31,8 +31,8 @@ fn same_lines(out: &str, expected: &[String], final_newline: bool) -> bool {
 
 fn run(r: &mut Run) -> Result<(), MachineryError> {
     let t = r.tier;
-    let alpha = [SP, TAB, L, NL, CRLF, NB, L];
-    let n = t.pick(6, 8);
+    let alpha = [SP, TAB, L, NL, CRLF, NB, L, SHY];
+    let n = t.pick(6, 7);
     let space = Space { name: "C18/texts".into(), menu: menu(&alpha), max_len: n, desc: format!("texts of length <= {}", n) };
     r.space(space, |seq, cx| {
         let s = build(seq, &alpha);
